@@ -2,11 +2,13 @@
   Driver for C16: a predefined site network (topology regenerated from the working tree), capacities
   and a schedule in; the model's limits, feasibility, aggregate-current magnitudes, per-transformer
   current sums / power / bound, pod and panel sums out.
+  (a request with "kind":"simple" goes to `handleSimple`: the `simple_acn` model of AcnModel/SimpleAcn.lean)
   request : {"site":"caltech"|"jpl"|"office001", "voltage":bits, "caps":[bits…], "vt":bits, "rt":bits,
              "S":[[bits…]…]  (one row per station, one column per period)}
 -/
 import AcnModel.Wire
 import AcnModel.Sites
+import AcnModel.SimpleAcn
 open Lean Acn Acn.Wire Acn.Sites Acn.Gen.Sites
 
 def r3 : Float := Float.sqrt 3
@@ -20,7 +22,54 @@ def errName : SiteErr → String
 def perPeriod (S : List (List Float)) (f : List Float → Float) : List Float :=
   (List.range (Feas.periods S)).map fun t => f (period S t)
 
-def handle (j : Json) : Except String Json := do
+/-- `simple_acn` (auto_acn.py).
+    request : {"kind":"simple", "ids":[str…], "voltage":bits|null, "cap":bits|null  (null = argument omitted: signature
+               default of the regenerated data), "vt":bits, "rt":bits, "S":[[bits…]…] | null}
+    answer  : stations, voltages, angles, M, limits, names; with a schedule: feasible, feas_t, |Σ| and kW per period -/
+def handleSimple (j : Json) : Except String Json := do
+  let ids ← (do let a ← getArr j "ids"; a.mapM fun v => v.getStr?)
+  let volt? ← getOpt j "voltage" asF
+  let cap? ← getOpt j "cap" asF
+  let vt ← getF j "vt"
+  let rt ← getF j "rt"
+  let S? ← getOpt j "S" (fun v => do let a ← asArr v; a.mapM asFs)
+  let args : Except SimpleAcn.SimpleErr (Float × Float) := do
+    let v ← match volt? with
+      | some v => pure v
+      | none => SimpleAcn.defaultK Gen.SimpleAcn.defaultVoltage
+    let c ← match cap? with
+      | some c => pure c
+      | none => SimpleAcn.defaultK Gen.SimpleAcn.defaultCap
+    pure (v, c)
+  let shapeOk := ("body_shape_ok", jB Gen.SimpleAcn.bodyShapeOk)
+  match args with
+  | .error e => pure (Json.mkObj [("err", jS e.name), shapeOk])
+  | .ok (v, c) =>
+    match SimpleAcn.simpleAcn ids v c with
+    | .error e => pure (Json.mkObj [("err", jS e.name), shapeOk])
+    | .ok N =>
+      let static : List (String × Json) :=
+        [shapeOk, ("stations", jList jS N.stations), ("voltages", jFs N.voltages), ("angles", jFs N.angles),
+         ("M", jFss N.M), ("limits", jFs N.lims), ("names", jList jS N.names),
+         ("voltage", jF v), ("cap", jF c), ("default_evse_type", jS Gen.SimpleAcn.defaultEvseType),
+         ("bounds", jFs (N.lims.map fun l => l + Feas.tolOf vt rt l))]
+      match S? with
+      | none => pure (Json.mkObj (("err", Json.null) :: static))
+      | some S =>
+        if S.length ≠ ids.length then pure (Json.mkObj (("err", jS "shape") :: static))
+        else match SimpleAcn.netFeasible0 N vt rt S with
+          | .error e => pure (Json.mkObj (("err", jS e.name) :: static))
+          | .ok feas =>
+            let T := Feas.periods S
+            let feasT ← (List.range T).mapM fun t =>
+              match SimpleAcn.netFeasible0 N vt rt ((Feas.col S t).map fun x => [x]) with
+              | .ok b => pure b
+              | .error e => throw e.name
+            pure (Json.mkObj ([("err", Json.null), ("feasible", jB feas), ("feas_t", jList jB feasT),
+              ("total", jFs ((List.range T).map fun t => SimpleAcn.total S t)),
+              ("powerKW", jFs ((List.range T).map fun t => SimpleAcn.powerKW v S t))] ++ static))
+
+def handleSite (j : Json) : Except String Json := do
   let site ← getStr j "site"
   let caps ← getFs j "caps"
   let vt ← getF j "vt"
@@ -60,5 +109,10 @@ def handle (j : Json) : Except String Json := do
         pure (Json.mkObj ([("err", Json.null), ("feasible", jB feas), ("feas_t", jList jB feasT), ("limits", jFs N.lims),
           ("bounds", jFs bounds), ("mags", jFss mags), ("xfmrs", Json.arr xf.toArray),
           ("pods", Json.arr pods.toArray)] ++ static))
+
+def handle (j : Json) : Except String Json :=
+  match getStr j "kind" with
+  | .ok "simple" => handleSimple j
+  | _ => handleSite j
 
 def main : IO Unit := runDriver handle
